@@ -49,6 +49,101 @@ pub fn catalogue() -> Vec<(String, String)> {
             format!("pragma solidity 0.8.17;\ncontract C {{ uint256[] arr; function f(uint256 a) public returns (uint256) {{ arr[{0}] = arr[{0}] + 1; uint256 b = a * {0}; uint256 c = {0} * a; uint256 d = a / {0}; if (a == address({0})) {{}} return b + c + d + {0}; }} }}", lit),
         );
     }
+    // numeric literals of every size class: 10^(n-1) and 10^n - 1 for every digit count up to 78, and every power of two up to 2^256 (+-1 around type boundaries)
+    {
+        let lit_prog = |lit: &str| format!("pragma solidity 0.8.17;\ncontract C {{ uint256[] arr; function f(uint256 a) public returns (uint256) {{ arr[{0}] = arr[{0}] + 1; uint256 b = a * {0}; uint256 c = {0} * a; uint256 d = a / {0}; uint256 e = {0} / a; a *= {0}; return b + c + d + e + {0}; }} }}", lit);
+        for n in 1..=78usize {
+            add(&format!("literal-digits:{}:10^(n-1)", n), lit_prog(&format!("1{}", "0".repeat(n - 1))));
+            add(&format!("literal-digits:{}:9s", n), lit_prog(&"9".repeat(n)));
+        }
+        // powers of two as decimal strings (schoolbook doubling)
+        let mut d: Vec<u8> = vec![1];
+        for k in 0..=256u32 {
+            let s: String = d.iter().rev().map(|x| (b'0' + x) as char).collect();
+            add(&format!("literal-pow2:2^{}", k), lit_prog(&s));
+            if [8u32, 16, 31, 32, 63, 64, 127, 128, 255, 256].contains(&k) {
+                // 2^k - 1 : subtract one from the decimal string
+                let mut m = d.clone();
+                let mut i = 0;
+                loop {
+                    if m[i] > 0 {
+                        m[i] -= 1;
+                        break;
+                    } else {
+                        m[i] = 9;
+                        i += 1;
+                    }
+                }
+                while m.len() > 1 && *m.last().unwrap() == 0 {
+                    m.pop();
+                }
+                let s1: String = m.iter().rev().map(|x| (b'0' + x) as char).collect();
+                add(&format!("literal-pow2:2^{}-1", k), lit_prog(&s1));
+                // with digit separators and exponent variants
+                add(&format!("literal-pow2:2^{}:separators", k), lit_prog(&s.chars().enumerate().map(|(i, c)| if i > 0 && i % 3 == 0 { format!("_{}", c) } else { c.to_string() }).collect::<String>()));
+                add(&format!("literal-pow2:2^{}:e0", k), lit_prog(&format!("{}e0", s)));
+            }
+            let mut carry = 0;
+            for x in d.iter_mut() {
+                let v = *x * 2 + carry;
+                *x = v % 10;
+                carry = v / 10;
+            }
+            if carry > 0 {
+                d.push(carry);
+            }
+        }
+    }
+    // any number of definitions of every kind
+    for n in [255usize, 256, 257, 300, 1000] {
+        let mut t = String::from("pragma solidity 0.8.17;\ncontract ManyVars {\n");
+        for i in 0..n {
+            t.push_str(&format!("  uint256 v{};\n", i));
+        }
+        t.push_str("  function f() public { v0 = 1; }\n}\n");
+        add(&format!("state-variables:{}:uint256", n), t);
+        let mut t = String::from("pragma solidity 0.8.17;\ncontract ManyMixed {\n");
+        for i in 0..n {
+            t.push_str(&format!("  {} w{};\n", ["uint8", "uint256", "address", "bool", "bytes32", "string", "uint128"][i % 7], i));
+        }
+        t.push_str("}\n");
+        add(&format!("state-variables:{}:mixed", n), t);
+        let mut t = String::from("pragma solidity 0.8.17;\nstruct Big {\n");
+        for i in 0..n {
+            t.push_str(&format!("  uint256 f{};\n", i));
+        }
+        t.push_str("}\ncontract Holder { struct Inner {\n");
+        for i in 0..n {
+            t.push_str(&format!("  {} g{};\n", ["uint8", "uint256", "bytes32"][i % 3], i));
+        }
+        t.push_str("} }\n");
+        add(&format!("struct-fields:{}", n), t);
+        let mut t = String::from("pragma solidity 0.8.17;\ncontract ManyThings {\n");
+        for i in 0..n {
+            t.push_str(&format!("  event E{0}(uint256 a); error R{0}(); struct S{0} {{ uint8 a; uint256 b; uint8 c; }} modifier m{0}() {{ _; }}\n", i));
+        }
+        t.push_str("  constructor() {}\n}\n");
+        add(&format!("members-of-every-kind:{}", n), t);
+        let mut t = String::from("pragma solidity 0.8.17;\ncontract ManyParams { function f(");
+        for i in 0..n {
+            if i > 0 {
+                t.push_str(", ");
+            }
+            t.push_str(&format!("uint256[] memory p{}", i));
+        }
+        t.push_str(") public { ");
+        for i in 0..n.min(300) {
+            t.push_str(&format!("p{}[0] = 1; ", i));
+        }
+        t.push_str("} }\n");
+        add(&format!("parameters:{}", n), t);
+        let mut t = String::from("pragma solidity 0.8.17;\ncontract ManyStmts { uint256 x; function f(uint256 a) public { ");
+        for i in 0..n {
+            t.push_str(&format!("x = x + {} * 2; ++x; require(a > {} && a != 0, \"r\"); ", i, i));
+        }
+        t.push_str("} }\n");
+        add(&format!("statements:{}", n), t);
+    }
     for n in [0usize, 1, 2, 127, 128, 254, 255, 256, 257, 300, 511, 512, 1000] {
         let mut t = String::from("pragma solidity 0.8.17;\ncontract Many {\n");
         for i in 0..n {
@@ -370,7 +465,7 @@ pub fn run(ctx: &Ctx) -> i32 {
     }
     acc.viol.sort_by(|a, b| (a.workload.as_str(), a.k).cmp(&(b.workload.as_str(), b.k)));
     if ctx.replay.is_none() {
-        if acc.cov_get("catalogue:accepted") < 100 {
+        if acc.cov_get("catalogue:accepted") < 500 {
             acc.inconclusive(format!("coverage floor: only {} catalogue programs were accepted by the parser", acc.cov_get("catalogue:accepted")));
         }
         meta.extra.insert("catalogue_size".into(), json!(ncat));
